@@ -62,29 +62,33 @@ ENC = {e['name']: e for e in ENCODINGS}
 
 
 # ---------------------------------------------------------------- model side
-def model_paths(g):
+def model_paths(g, select=None, count_only=False):
     """every complete path of the state graph: the stream is read to its end (or the decoder
-    raised, which ends the behaviour)"""
+    raised, which ends the behaviour).  `select`: set of path numbers to build (None = all)."""
     out = []
+    idx = 0
     for n0 in g.init:
         s0 = g.nodes[n0]
         total = s0['bom'] + sum(u['w'] for u in s0['units'])
-        stack = [(n0, [])]
+        stack = [(n0, ())]
         while stack:
             n, acc = stack.pop()
             st = g.nodes[n]
             if st['fed'] == total or st['err']:
                 if acc:
-                    out.append(dict(units=s0['units'], bom=s0['bom'], mode=s0['mode'], policy=s0['policy'], steps=acc))
+                    if not count_only and (select is None or idx in select):
+                        steps = []
+                        for lab, d in acc:
+                            sd = g.nodes[d]
+                            steps.append(dict(k=stategraph.parse_action(lab)[1][0], lastOut=sd['lastOut'], delivered=sd['delivered'],
+                                              err=sd['err'], carry=len(sd['carry'])))
+                        out.append(dict(units=s0['units'], bom=s0['bom'], mode=s0['mode'], policy=s0['policy'], steps=steps))
+                    idx += 1
                 continue
             for lab, d in g.edges[n]:
-                if d == n:
-                    continue
-                name, args = stategraph.parse_action(lab)
-                sd = g.nodes[d]
-                stack.append((d, acc + [dict(k=args[0], lastOut=sd['lastOut'], delivered=sd['delivered'], err=sd['err'],
-                                             carry=len(sd['carry']))]))
-    return out
+                if d != n:
+                    stack.append((d, acc + ((lab, d),)))
+    return idx if count_only else out
 
 
 def compatible(path):
@@ -349,15 +353,14 @@ def observe_async(ep, chunks, term):
     obs = []
 
     async def main():
-        task = asyncio.ensure_future(c.expect_exact([TERM if c.encoding else TERM.encode('ascii')], timeout=5, async_=True))
+        task = asyncio.ensure_future(c.expect_exact([TERM if c.encoding else TERM.encode('ascii')], timeout=2, async_=True))
         for i, ch in enumerate(chunks):
             last = i == len(chunks) - 1
             ep.feed(ch + (term if last else b''))
-            end = time.time() + 5
+            end = time.time() + 1
             while len(ep.log.writes) < i + 1 and not task.done():
                 if time.time() > end:
-                    task.cancel()
-                    raise Machinery('event loop did not deliver chunk %d' % i)
+                    break           # data_received did not log this chunk: the final verdict will show what is missing
                 await asyncio.sleep(0)
             obs.append({'log': list(ep.log.writes), 'before': None})
             if task.done() and not last:
@@ -521,14 +524,19 @@ def run(ctx):
              'states, %d generated, depth %d, 8 invariants hold (%.0fs)' % (res['distinct'], res['generated'], res['depth'], res['wall_s']))
     # model sensitivity + vacuity guard
     small = [('MaxChars', '= 2'), ('Widths', '<- W1234'), ('XWidths', '<- NoX'), ('BomWidths', '<- Bom0'), ('MaxCuts', '= 3')]
+    def small_run(tag, constants, invariants, want):
+        for attempt in (1, 2):
+            c2 = tlc.write_cfg(os.path.join(ctx.work, 'codec_%s.cfg' % tag), constants=constants, invariants=invariants)
+            r2 = tlc.run('MCCodec', c2, ctx.work, workers=2, timeout=600, heap='2g', outname='codec_%s.out' % tag)
+            if r2['violated'] == want:
+                return
+            if not (r2['machinery_error'] or r2['timed_out']):
+                break
+        raise tlc.TLCError('Codec (%s) should violate %s, got %s (rc=%s, timed out=%s, see %s)' % (
+            tag, want, r2['violated'], r2['rc'], r2['timed_out'], r2['out']))
     for dec in ('fresh', 'final'):
-        c2 = tlc.write_cfg(os.path.join(ctx.work, 'codec_%s.cfg' % dec), constants=small + [('Decoder', '= "%s"' % dec)], invariants=INVS)
-        r2 = tlc.run('MCCodec', c2, ctx.work, workers=2, timeout=300, outname='codec_%s.out' % dec)
-        if r2['violated'] != 'WholeStream':
-            raise tlc.TLCError('Codec with Decoder=%s should violate WholeStream, got %s' % (dec, r2['violated']))
-    c3 = tlc.write_cfg(os.path.join(ctx.work, 'codec_guard.cfg'), constants=small + [('Decoder', '= "incremental"')], invariants=['NeverCarries'])
-    if tlc.run('MCCodec', c3, ctx.work, workers=2, timeout=300, outname='codec_guard.out')['violated'] != 'NeverCarries':
-        raise tlc.TLCError('Codec: no behaviour ever cuts a character (vacuous)')
+        small_run(dec, small + [('Decoder', '= "%s"' % dec)], INVS, 'WholeStream')
+    small_run('guard', small + [('Decoder', '= "incremental"')], ['NeverCarries'], 'NeverCarries')
     ctx.note('model sensitivity: a fresh decoder per read and final=True both violate WholeStream; the carry is exercised')
     # (2) state graph -> paths
     gconst = full if not quick else [('MaxChars', '= 3')] + full[1:]
@@ -540,16 +548,19 @@ def run(ctx):
         raise tlc.TLCError('Codec graph run failed (%s)' % gres['out'])
     g = stategraph.Graph(dot)
     os.unlink(dot)
-    paths = model_paths(g)
+    npaths = model_paths(g, count_only=True)
     rng = random.Random(ctx.seed * 131 + 7)
-    base = build_cases(paths, rng, quick)
-    skipped = [c for c in base if not oracle_ok(c)]
-    base = [c for c in base if oracle_ok(c)]
+    cap = 60000 if quick else 250000
+    paths = model_paths(g, select=None if npaths <= cap else set(rng.sample(range(npaths), cap)))
+    allc = build_cases(paths, rng, quick)
+    verdicts = [oracle_ok(c) for c in allc]
+    skipped = [c for c, v in zip(allc, verdicts) if not v]
+    base = [c for c, v in zip(allc, verdicts) if v]
     if len(skipped) > len(base) // 50:
         raise tlc.TLCError('instantiation does not fit the model for %d cases, e.g. %s' % (len(skipped), json.dumps(skipped[0])[:400]))
-    ctx.note('state graph (%d characters): %d states, %d transitions, %d complete paths -> %d instantiated streams '
+    ctx.note('state graph (%d characters): %d states, %d transitions, %d complete paths (%d used) -> %d instantiated streams '
              '(%d dropped: the codec\'s own incremental decoder differs from its one-shot decoder there)' % (
-                 3 if quick else 4, len(g.nodes), g.n_edges(), len(paths), len(base), len(skipped)))
+                 3 if quick else 4, len(g.nodes), g.n_edges(), npaths, len(paths), len(base), len(skipped)))
     del g
     # (3) replay
     budget = {'read': 8000, 'expect': 4000, 'async': 3000} if quick else {'read': 120000, 'expect': 60000, 'async': 40000}
@@ -562,8 +573,26 @@ def run(ctx):
                 continue
             jobs.append(dict(c, transport=t, variant=v))
     t0 = time.time()
+    # two rounds: when a (transport, variant) already fails on many of its first cases, the rest of
+    # its cases are not replayed (every failing case is re-run twice and may wait for timeouts)
+    rng.shuffle(jobs)
+    first, rest, seen = [], [], {}
+    for j in jobs:
+        k = (j['transport'], j['variant'])
+        seen[k] = seen.get(k, 0) + 1
+        (first if seen[k] <= 150 else rest).append(j)
     with Pool(12) as pool:
-        outs = pool.map(run_case, jobs, chunksize=16)
+        outs = pool.map(run_case, first, chunksize=8)
+        nf = {}
+        for j, o in zip(first, outs):
+            if o['fails']:
+                nf[(j['transport'], j['variant'])] = nf.get((j['transport'], j['variant']), 0) + 1
+        broken = set(k for k, n in nf.items() if n >= 30)
+        rest = [j for j in rest if (j['transport'], j['variant']) not in broken]
+        outs += pool.map(run_case, rest, chunksize=16)
+    jobs = first + rest
+    if broken:
+        ctx.note('not replayed further after >= 30 of the first 150 cases failed: %s' % ', '.join('%s/%s' % k for k in sorted(broken)))
     stats = {'replayed': len(jobs), 'nontrivial': 0, 'flaky': 0, 'steps': 0, 'per': {}}
     mach = [o['machinery'] for o in outs if o.get('machinery')]
     if len(mach) > max(3, len(jobs) // 200):
@@ -597,7 +626,7 @@ def run(ctx):
         'rule': 'one replay per (complete path of the TLC state graph = stream shape x cut set) x compatible encoding x error policy x '
                 '(transport, variant), sampled by seed to the tier budget; after every read the returned / pending / logged text is '
                 'compared with lastOut / delivered of the TLC state; non-trivial = some read boundary falls inside a multi-byte unit',
-        'exhaustive': False, 'graph_paths': len(paths), 'instantiated_streams': len(base), 'per_variant': stats['per'],
+        'exhaustive': False, 'graph_paths': npaths, 'graph_paths_used': len(paths), 'instantiated_streams': len(base), 'per_variant': stats['per'],
         'checker_cmd': res['cmd'], 'known_findings_hit': nknown, 'not_carried_out': len(mach),
     }, assumptions=[
         'the codec itself (what a complete byte sequence decodes to, what replace/ignore produce) is Python\'s and trusted; streams on which '
@@ -640,6 +669,7 @@ def self_test(ctx, base):
 
 
 def replay(ctx):
+    ctx.replay = os.path.abspath(ctx.replay)
     os.chdir(ctx.work)
     d = json.load(open(ctx.replay))
     c = d['case']
